@@ -345,7 +345,9 @@ def find_converted_db(converted_gtfs, gtf_filename, complete_genedb):
 def compare_stored_gtf(converted_gtfs, gtf_filename, genedb_filename):
     gtf_mtime = converted_gtfs.get(gtf_filename, {}).get('gtf_mtime')
     db_mtime = converted_gtfs.get(gtf_filename, {}).get('db_mtime')
-    return (os.path.exists(gtf_filename) and os.path.getmtime(gtf_filename) == gtf_mtime and
+    # the GTF must have been recorded for this very database, equal modification times alone do not identify it
+    return (converted_gtfs.get(gtf_filename, {}).get('genedb') == genedb_filename and
+            os.path.exists(gtf_filename) and os.path.getmtime(gtf_filename) == gtf_mtime and
             os.path.exists(genedb_filename) and os.path.getmtime(genedb_filename) == db_mtime)
 
 
